@@ -4,7 +4,9 @@
 //! Two history classes are recorded as known findings (KNOWN_FINDINGS.txt) and are kept out of
 //! the generated histories so that every *other* violation is still reported:
 //!   K1  a mutating call (set_mask / remove / remove_move) while a promotion destination is
-//!       partially yielded;
+//!       partially yielded, unless the call leaves that destination the first one the iterator
+//!       meets among the promotions (then the promotion cursor still belongs to it and the
+//!       contract is demanded; decided on a clone of the iterator through the read-only hooks);
 //!   K2  remove_move of a promotion move.
 //! The drivers track "partially yielded" on the abstract level (which promotion moves of a
 //! (from,to) group were yielded), not by looking into the iterator.
@@ -67,11 +69,67 @@ impl Inst {
     }
 }
 
+impl Inst {
+    /// the (source, destination, pieces yielded) of the promotion destination in progress
+    fn group_in_progress(&self) -> Option<(u8, u8, usize)> {
+        for &c in &self.yielded {
+            if c % 5 == 0 {
+                continue;
+            }
+            let base = c - c % 5;
+            let dest = ((c % 320) / 5) as u8;
+            let done = (1..=4).filter(|k| self.yielded.contains(&(base + k))).count();
+            if done < 4 && !self.removed_dest.contains(&dest) {
+                return Some(((c / 320) as u8, dest, done));
+            }
+        }
+        None
+    }
+
+    /// would this mutating call keep the promotion cursor on its destination?  (K1 is the class of
+    /// calls for which it would not.)  The call is tried on a clone; the clone's entry list and
+    /// cursor are read through the hooks: the first promotion entry from the cursor on that has a
+    /// destination under the mask must be the source in progress, its lowest such destination the
+    /// destination in progress.
+    fn keeps_cursor(&self, op: &Op) -> bool {
+        let Some((src, dest, done)) = self.group_in_progress() else { return true };
+        let mut g = self.gen.clone();
+        match op {
+            Op::SetMask(m) => {
+                let m: Vec<u8> = match &self.gen_mask {
+                    Some(gm) => m.iter().copied().filter(|s| gm.contains(s)).collect(),
+                    None => m.clone(),
+                };
+                g.set_mask(bb_of(&m));
+            }
+            Op::Remove(m) => g.remove(bb_of(m)),
+            Op::RemoveMove(c) => {
+                if c % 5 != 0 {
+                    return false;
+                }
+                g.remove_move(decode(*c));
+            }
+            _ => return true,
+        }
+        let (idx, _, mask) = g.verif_cursor();
+        let _ = done;
+        for (s, d, promo) in g.verif_entries().into_iter().skip(idx) {
+            let under = bb_list(d & mask);
+            if promo && !under.is_empty() {
+                return s.to_u8() == src && under[0] == dest;
+            }
+        }
+        false
+    }
+}
+
 pub struct Recorder {
     out: std::io::BufWriter<std::fs::File>,
     pub events: u64,
     next_id: u64,
     pub avoided: u64,
+    /// mutating calls made while a promotion destination was partially yielded (outside K1)
+    pub mid_promotion_calls: u64,
     /// keep out of the two known-finding classes (default); when false the histories are
     /// unrestricted - used to look for panics inside those classes, where wrong answers are known
     pub avoid: bool,
@@ -86,6 +144,7 @@ impl Recorder {
             events: 0,
             next_id: 1,
             avoided: 0,
+            mid_promotion_calls: 0,
             avoid: true,
             sys: false,
         }
@@ -146,7 +205,10 @@ impl Recorder {
     /// apply one operation (keeping out of the known-finding classes), then log len/is_empty/hint
     fn apply(&mut self, it: &mut Inst, op: &Op, clones: &mut Vec<Inst>) {
         let mutating = matches!(op, Op::SetMask(_) | Op::Remove(_) | Op::RemoveMove(_));
-        if mutating && self.avoid {
+        if mutating && self.avoid && it.mid_promotion() && it.keeps_cursor(op) {
+            // in the middle of a promotion destination, but outside K1
+            self.mid_promotion_calls += 1;
+        } else if mutating && self.avoid {
             // K1: finish the promotion destination in progress first
             let mut guard = 0;
             while it.mid_promotion() && guard < 8 {
@@ -427,7 +489,7 @@ pub fn record_iter(opts: &Opts) -> i32 {
     }
     rec.finish();
     out_line("SUMMARY", &json!({"counts": {"events": rec.events, "sequences": seqs, "positions": mine.len(),
-                                           "avoided_known_class": rec.avoided},
+                                           "avoided_known_class": rec.avoided, "mutations_mid_promotion": rec.mid_promotion_calls},
                                 "distinct": mine.len(), "nontrivial": seqs, "mismatches": 0, "samples": [], "extra": {}}));
     0
 }
